@@ -3,7 +3,7 @@
 # prints every run that does not exit 0 or prints a VIOLATION line. A clean sweep = no false alarm at other seeds.
 cd "$(dirname "$0")/.."
 for seed in $(seq $1 $2); do
-  for id in C01 C02 C03 C04 C05 C06 C07 C08 C09 C10 C11 C13 C14 C15 C16 C17 C18 C20; do
+  for id in ${SWEEP_IDS:-C01 C02 C03 C04 C05 C06 C07 C08 C09 C10 C11 C13 C14 C15 C16 C17 C18 C20}; do
     out=$(VERIF_SEED=$seed VERIF_EVIDENCE_DIR=${SWEEP_OUT:-/tmp}/sweep_ev VERIF_REPLAY_DIR=${SWEEP_OUT:-/tmp}/sweep_replays ./check $id 2>&1); rc=$?
     if [ $rc -ne 0 ] || echo "$out" | grep -q "^VIOLATION\|HARNESS"; then echo "seed=$seed $id rc=$rc"; echo "$out" | grep -E "VIOLATION|HARNESS|class=" | cut -c1-300; fi
     inc=$(echo "$out" | grep -oE "inconclusive=[0-9]+" | head -1)
